@@ -46,20 +46,46 @@ Definition check_obs (r : rmv) (o : obs) : bool :=
 
 (** a selector history: after each use_* call (selector, warned, what is read, and the value and
     uncertainty of k * a + c computed by the derivative method afterwards) *)
-Fixpoint check_sels (k c : Q) (r : rmv) (h : list (sel * bool * obs * (Q * Q))) : bool :=
+(** Monte Carlo samples retrieved after a propagation with injected offsets: every sample of k*a+c and of a*a
+    is the formula evaluated at  offset * (uncertainty in use) + (value in use), where value and uncertainty are
+    the numbers just read off the object (tied to the model by [check_obs]); only double rounding is allowed *)
+Definition mctol : Q := 1 # 1000000000000.
+Fixpoint check_mc_lin (k c v e : Q) (offs samples : list Q) : bool :=
+  match offs, samples with
+  | [], [] => true
+  | o :: offs', s :: samples' =>
+      Qle_bool (Qabs (mc_lin k c v e o - s)) (mctol * (Qabs (k * o * e) + Qabs (k * v) + Qabs c))
+      && check_mc_lin k c v e offs' samples'
+  | _, _ => false
+  end.
+Fixpoint check_mc_sq (v e : Q) (offs samples : list Q) : bool :=
+  match offs, samples with
+  | _, [] => true                              (* the harness retrieves a prefix *)
+  | o :: offs', s :: samples' =>
+      Qle_bool (Qabs (mc_sq v e o - s)) (mctol * ((Qabs (o * e) + Qabs v) * (Qabs (o * e) + Qabs v)))
+      && check_mc_sq v e offs' samples'
+  | [], _ :: _ => false
+  end.
+Definition check_mc (k c : Q) (ob : obs) (offs : list Q) (mc : list Q * list Q) : bool :=
+  check_mc_lin k c (o_value ob) (o_error ob) offs (fst mc) && check_mc_sq (o_value ob) (o_error ob) offs (snd mc).
+
+Fixpoint check_sels (k c : Q) (offs : list Q) (r : rmv) (h : list (sel * bool * obs * (Q * Q) * (list Q * list Q))) : bool :=
   match h with
   | [] => true
-  | (o, warned, ob, (dv, de)) :: h' =>
+  | (o, warned, ob, (dv, de), mc) :: h' =>
       let '(r1, w) := sel_step r o in
       Bool.eqb w warned && check_obs r1 ob
       && Qclose tol (tol * (Qabs k * mean_abs (r_xs r1) + Qabs (k * r_value r1) + Qabs c)) (lin_value k c r1) dv && close_sqrt (lin_err_sq k r1) de
-      && check_sels k c r1 h'
+      && check_mc k c ob offs mc
+      && check_sels k c offs r1 h'
   end.
 
-(** case: readings, individual uncertainties, what a fresh object reads, k, c, history *)
-Definition check_rmv (c : list Q * list Q * obs * (Q * Q) * list (sel * bool * obs * (Q * Q))) : bool :=
-  let '(xs, ss, o0, (k, c0), h) := c in
-  check_obs (rmv_new xs ss) o0 && check_sels k c0 (rmv_new xs ss) h.
+(** case: readings, individual uncertainties, what a fresh object reads, k, c, injected offsets, the Monte Carlo
+    samples of the fresh object, history *)
+Definition check_rmv (c : list Q * list Q * obs * (Q * Q) * list Q * (list Q * list Q)
+                          * list (sel * bool * obs * (Q * Q) * (list Q * list Q))) : bool :=
+  let '(xs, ss, o0, (k, c0), offs, mc0, h) := c in
+  check_obs (rmv_new xs ss) o0 && check_mc k c0 o0 offs mc0 && check_sels k c0 offs (rmv_new xs ss) h.
 
 (** inferred covariance between two plain reading arrays: observed (covariance, correlation) after
     set_covariance(a, b) / set_correlation(a, b), or None when the request was rejected.
